@@ -44,6 +44,24 @@ def idealSchedule (s : SchedSpec) (fuel : Nat) : List PyDate :=
   [s.effective] ++ (interiorRolls s fuel).map (adjustS s) ++
     [if s.adjustTermination then adjustS s s.termination else s.termination]
 
+/-- C16 for the CDS premium leg: the unadjusted roll dates are whole periods from the anchor (maturity for
+BACKWARD — down to and including the first one on or before the step-in date, the previous coupon date;
+step-in for FORWARD — while before maturity, then the maturity date); every one is business-day adjusted;
+the first is not a payment date. -/
+def cdsIdealPayments (s : SchedSpec) (fuel : Nat) : List PyDate :=
+  let ks := List.range fuel
+  let un : List PyDate :=
+    if s.backward then
+      let rolls := ks.map (fun (k : Nat) => addMonthsS s.termination (-(s.numMonths * (k : Int))))
+      let after := rolls.takeWhile (fun r => r.serial > s.effective.serial)
+      -- the previous coupon date: the first roll on or before the step-in date
+      let pcd := (rolls.drop after.length).take 1
+      (after ++ pcd).reverse
+    else
+      let rolls := ks.map (fun (k : Nat) => addMonthsS s.effective (s.numMonths * (k : Int)))
+      rolls.takeWhile (fun r => r.serial < s.termination.serial) ++ [s.termination]
+  (un.map (adjustS s)).drop 1
+
 def strictlyIncreasing : List PyDate → Bool
   | a :: b :: rest => decide (a.serial < b.serial) && strictlyIncreasing (b :: rest)
   | _ => true
